@@ -164,6 +164,46 @@ pub fn run(tier: Tier) -> i32 {
             })
         });
         total.merge(a2);
+        // words derived from the linking words (hyphen-joined, glued, doubled, with an apostrophe): the facade and the
+        // concrete interpreter classify them alike and treat them alike between two small numbers
+        {
+            let c = vocab::cls(l);
+            let links: Vec<&str> = vocab::linking_words(l).iter().copied().filter(|w| !w.contains(' ')).collect();
+            let mut derived: Vec<String> = vec![];
+            for w1 in &links {
+                for w2 in &links {
+                    for d in [format!("{w1}-{w2}"), format!("{w1}{w2}"), format!("{w1}'{w2}"), format!("{w1}-{w2}-{w1}")] {
+                        if !derived.contains(&d) {
+                            derived.push(d);
+                        }
+                    }
+                }
+            }
+            let a3 = with_concrete!(l, conc => {
+                let mut acc = Acc::new();
+                for d in &derived {
+                    acc.states += 1;
+                    acc.traces += 2;
+                    let fl = LangInterpreter::is_linking(&facade, d);
+                    let cl = LangInterpreter::is_linking(&conc, d);
+                    let syms: Vec<&str> = vec![c.one.as_str(), d.as_str(), c.unit.as_str()];
+                    let (f2, c2) = (api_obs(&facade, &syms, 10.0), api_obs(&conc, &syms, 10.0));
+                    if fl != cl || f2 != c2 {
+                        ctx.report(&mut acc, Violation {
+                            lang: l.code().into(),
+                            entry: if fl != cl { "is_linking".into() } else { "api".into() },
+                            input: serde_json::to_string(&syms).unwrap(),
+                            threshold: Some(10.0),
+                            clause: "f(s, Language::L) = f(s, L::new())".into(),
+                            expected: format!("concrete: is_linking={cl} {c2}"),
+                            observed: format!("facade: is_linking={fl} {f2}"),
+                        });
+                    }
+                }
+                acc
+            });
+            total.merge(a3);
+        }
         // ambiguity annotation on token vectors over the ambiguity alphabet
         let amb: Vec<String> = match l {
             L::En => ["o", "one", "twenty", "xyzzy", ",", " ", "zero", "O"].iter().map(|s| s.to_string()).collect(),
@@ -290,7 +330,7 @@ pub fn run(tier: Tier) -> i32 {
     let cov = json!({
         "exhaustive": true,
         "rule": "for each of the 7 (Language::L, L::new()) pairs: every word sequence of length <= k over the full vocabulary through text2digits, the interpreter trait methods step by step on a builder, and find/find_iter/replace_stream/replace_text x thresholds; basic_annotate on all token vectors over the ambiguity alphabet; lookup of the 7 ISO codes judged by a behaviour fingerprint over the union vocabulary; every 1-2 letter lowercase string that is not an ISO 639-1 code, plus blank, digits, doubled / prefixed codes and long gibberish, must give None",
-        "bounds": {"sigma_full_depth": k, "annotate_depth": tier.pick(4, 5), "fingerprint_words": union.len(), "non_codes": non_codes.len()},
+        "bounds": {"derived_linking_words": "every ordered pair of one-word linking words joined by hyphen, glued, with an apostrophe, and w1-w2-w1: is_linking and the API between two small numbers at threshold 10", "sigma_full_depth": k, "annotate_depth": tier.pick(4, 5), "fingerprint_words": union.len(), "non_codes": non_codes.len()},
     });
     ctx.finish(total, cov, vec!["other real ISO 639-1 codes (e.g. 'ru'), region-tagged forms (pt-BR) and ISO 639-2 codes are unconstrained".into()])
 }
